@@ -166,13 +166,20 @@ func (s *histogram[N]) delta(dest *metricdata.Aggregation) int {
 		hDPts[i].Bounds = bounds
 		hDPts[i].BucketCounts = val.counts
 
+		// hDPts is recycled memory: clear the optional fields when they are
+		// not reported, they may hold the values of another data point.
 		if !s.noSum {
 			hDPts[i].Sum = val.total
+		} else {
+			hDPts[i].Sum = 0
 		}
 
 		if !s.noMinMax {
 			hDPts[i].Min = metricdata.NewExtrema(val.min)
 			hDPts[i].Max = metricdata.NewExtrema(val.max)
+		} else {
+			hDPts[i].Min = metricdata.Extrema[N]{}
+			hDPts[i].Max = metricdata.Extrema[N]{}
 		}
 
 		collectExemplars(&hDPts[i].Exemplars, val.res.Collect)
@@ -222,13 +229,20 @@ func (s *histogram[N]) cumulative(dest *metricdata.Aggregation) int {
 		// memory allocation footprint. Alternatives should be explored.
 		hDPts[i].BucketCounts = slices.Clone(val.counts)
 
+		// hDPts is recycled memory: clear the optional fields when they are
+		// not reported, they may hold the values of another data point.
 		if !s.noSum {
 			hDPts[i].Sum = val.total
+		} else {
+			hDPts[i].Sum = 0
 		}
 
 		if !s.noMinMax {
 			hDPts[i].Min = metricdata.NewExtrema(val.min)
 			hDPts[i].Max = metricdata.NewExtrema(val.max)
+		} else {
+			hDPts[i].Min = metricdata.Extrema[N]{}
+			hDPts[i].Max = metricdata.Extrema[N]{}
 		}
 
 		collectExemplars(&hDPts[i].Exemplars, val.res.Collect)
